@@ -183,8 +183,11 @@ BuiltB == {snapB[i] : i \in 1..nB}
 \* markSent: as built pending.RemoveType succeeds whenever SOME removable want for the CID is pending, also a
 \* weaker one added after a cancel in the lock-free window (the message then carries the withdrawn stronger
 \* type); ideal: the pending want must still be of the type that was built.
-FinOkP(ab) == {e \in BuiltP : IF "Mark" \in ab THEN WlCanRemoveType(pp, e.c, e.t) ELSE pp[e.c].t = e.t}
-FinOkB == {e \in BuiltB : WlCanRemoveType(bp, e.c, 1)}
+\* (cancels[c] = 0: a want that the ideal re-add rule holds back behind a queued cancel is not confirmed either;
+\*  as built a CID is never pending and cancelled at the same time, so the conjunct is vacuous there)
+FinOkP(ab) == {e \in BuiltP : /\ cancels[e.c] = 0
+                              /\ IF "Mark" \in ab THEN WlCanRemoveType(pp, e.c, e.t) ELSE pp[e.c].t = e.t}
+FinOkB == {e \in BuiltB : cancels[e.c] = 0 /\ WlCanRemoveType(bp, e.c, 1)}
 FinOkC == {c \in doneC : cancels[c] # 0}
 FinGone(ab) == {e.c : e \in (BuiltP \ FinOkP(ab))} \cup {e.c : e \in (BuiltB \ FinOkB)} \cup (doneC \ FinOkC)
 \* what the message entry for c is when built from the surviving parts only
